@@ -599,6 +599,34 @@ class Idx:
             return Poly.sym("B(%s)" % m.group(1))
         return None
 
+    def _offset_sum(self, p, f, at):
+        """an index atom that is a local defined as <index of a known kind> + <value of no index kind>: the sum is not
+        confined to the extent of that kind (an unprovable bound is a finding, not an unknown idiom)"""
+        sc = self.scopes[f.qual]
+        for m in p.t:
+            for a, e in m:
+                d = sc.defs.get(a)
+                if d is None or sc.stored.get(a):
+                    continue
+                dp = cxa.poly(d, sc.inline)
+                if len(dp.t) < 2:
+                    continue
+                kinded, other = [], []
+                for mm, c in dp.t.items():
+                    if len(mm) == 1 and mm[0][1] == 1 and c == 1:
+                        try:
+                            k = self._atom_kind(mm[0][0], f, at)
+                        except Unknown:
+                            k = None
+                        if k is not None and k != TOP and self._atom_ext(mm[0][0], f) is None:
+                            kinded.append((mm[0][0], k))
+                            continue
+                    other.append(repr(Poly({mm: c})))
+                if len(kinded) == 1 and other:
+                    return "index %s = %s adds %s to an index of kind %s: nothing confines the sum to that kind's extent" % (
+                        a, text(d)[:60], " + ".join(other), kstr(kinded[0][1]))
+        return None
+
     def _atom_kind(self, a, f, at):
         m = re.match(r"^([A-Za-z_][A-Za-z_0-9]*)\[", a)
         if m:
@@ -747,6 +775,11 @@ class Idx:
             rec["detail"] = str(e)
             return
         except Unknown as e:
+            off = self._offset_sum(p, f, loops) if f.qual not in self.dead else None
+            if off is not None:
+                rec["status"] = "bad"
+                rec["detail"] = off
+                return
             rec["status"] = "dead" if f.qual in self.dead else "unknown"
             rec["detail"] = str(e)
             if f.qual not in self.dead:
